@@ -58,6 +58,10 @@ pub struct FaultPlan {
     /// anything reaches the device (a device that is unavailable for a while and then heals)
     #[serde(default)]
     pub write_fail_window_ns: Option<(u64, u64)>,
+    /// targeted fault: from device call `.0` on, the next `.1` writes to a metadata copy (block 0
+    /// or 7) are short writes cut at an arbitrary byte (a pwrite that returns early)
+    #[serde(default)]
+    pub short_metadata_writes: Option<(u64, u32)>,
 }
 
 #[derive(Clone, Copy, Debug, Serialize, Deserialize, PartialEq, Eq)]
@@ -122,11 +126,15 @@ struct State {
     monitor_writes: bool,
 }
 
+/// Asked after every successful write with the block range it covered; `Some(detail)` is a violation.
+pub type WriteGuard = Box<dyn Fn(u64, u64) -> Option<String> + Send + Sync>;
+
 pub struct SimDisk {
     sim: Weak<Sim>,
     file: File,
     pub label: String,
     state: Mutex<State>,
+    write_guard: Mutex<Option<WriteGuard>>,
 }
 
 #[derive(Clone, Debug, Default, Serialize, Deserialize)]
@@ -176,6 +184,7 @@ impl SimDisk {
                 dirty_file: false,
                 monitor_writes: false,
             }),
+            write_guard: Mutex::new(None),
         })
     }
 
@@ -205,6 +214,11 @@ impl SimDisk {
         s.read_lat_ns = read_ns;
         s.write_lat_ns = write_ns;
         s.fsync_lat_ns = fsync_ns;
+    }
+
+    /// Always-on monitor of the store that owns this device (installed by `Env::open`).
+    pub fn set_write_guard(&self, guard: Option<WriteGuard>) {
+        *self.write_guard.lock().unwrap() = guard;
     }
 
     pub fn set_monitor_writes(&self, on: bool) {
@@ -448,8 +462,17 @@ impl SimDevice for SimDisk {
         self.begin_call(&sim, DevOp::Write)?;
         let event = sim.next_event();
         let mut s = self.state.lock().unwrap();
-        let fault = self.decide_fault(&mut s, &sim, DevOp::Write);
+        let mut fault = self.decide_fault(&mut s, &sim, DevOp::Write);
         let call = s.calls;
+        let mut cut_at_byte = false;
+        if let (None, Some((from, left))) = (fault, s.plan.short_metadata_writes) {
+            let block = offset / BLOCK as u64;
+            if left > 0 && call >= from && (block == 0 || block == 7) && offset % BLOCK as u64 == 0 {
+                s.plan.short_metadata_writes = Some((from, left - 1));
+                fault = Some(FaultKind::WriteShort);
+                cut_at_byte = true;
+            }
+        }
         s.calls += 1;
         s.writes += 1;
         let lat = s.write_lat_ns;
@@ -491,6 +514,12 @@ impl SimDevice for SimDisk {
                     apply(&mut s, data);
                     Err(eio())
                 }
+                Some(FaultKind::WriteShort) if cut_at_byte => {
+                    // a write call that returns early can stop at any byte, not only between sectors
+                    let keep = sim.fault_draw(|t| if t.chance(1, 2) { 1 + t.below(120) as usize } else { 1 + t.below(data.len() as u32 - 1) as usize });
+                    apply(&mut s, &data[..keep.min(data.len() - 1)]);
+                    Err(io::Error::new(io::ErrorKind::UnexpectedEof, "Partial write"))
+                }
                 Some(FaultKind::WriteShort) => {
                     let sectors = data.len() / SECTOR;
                     let keep = if sectors <= 1 {
@@ -522,6 +551,15 @@ impl SimDevice for SimDisk {
                             "device write to blocks {first}..{last} overlaps extent {sector}+{blocks} that a reader has pinned"
                         ),
                     );
+                }
+            }
+        }
+        if result.is_ok() && offset >= 16 * BLOCK as u64 {
+            let first = offset / BLOCK as u64;
+            let last = first + (data.len() as u64).div_ceil(BLOCK as u64);
+            if let Some(guard) = self.write_guard.lock().unwrap().as_ref() {
+                if let Some(detail) = guard(first, last) {
+                    sim.violation("write-over-live-extent", detail);
                 }
             }
         }
